@@ -69,45 +69,54 @@ def run(ctx):
     if drv is None:
         return
     n = 224 if ctx.quick else 1500
-    scripts = TC.corpus_scripts("C26") + make_scripts(ctx, n)
-    TC.run_scripts(scripts, timeout=2 if ctx.quick else 8)
     cap = 150 if ctx.quick else 1000          # (la) events checked per script (the first ones; the rest is counted)
+    need = 3000 if ctx.quick else 30000
     queries, meta = [], []
-    n_la = 0
-    real_fail_int = 0
-    for s in scripts:
-        isint = SG.is_int_logic(s["logic"])
-        ctx.count("script:%s:%s:%s" % (s["logic"], s["engine"], s.get("family")))
-        if s["rc"] == -9:
-            ctx.count("script-timeout")
-        try:
-            evs = T.read_trace(s["trace"], want=("t", "la"), max_la=cap)
-            if evs and getattr(evs[-1], "truncated", False):
-                ctx.count("script-events-capped")
-        except T.ParseError as e:
-            ctx.tie_broken("trace-unreadable", "%s" % e, dict(script=s["text"]))
-            continue
-        prev = None
-        for ev in evs:
-            if ev.kind == "la":
-                prev = ev
-                n_la += 1
-                lits = TC.la_event_lits(ev)
-                if lits is None:
-                    if judge_reject(ctx, s, ev, None, isint, "malformed"):
-                        ctx.tie_broken("la-event-shape", ev.raw[:300], dict(script=s["text"]))
-                    continue
-                queries.append(TC.encode_la("Q", isint, lits))
-                meta.append((s, ev, lits, isint))
-            elif ev.kind == "t":
-                if ev.la is not None:
+    state = dict(n_la=0, scripts=0, with_conflict=0)
+
+    def do_batch(scripts):
+        TC.run_scripts(scripts, timeout=2 if ctx.quick else 8)
+        for s in scripts:
+            state["scripts"] += 1
+            state["with_conflict"] += "(la " in s["trace"]
+            isint = SG.is_int_logic(s["logic"])
+            ctx.count("script:%s:%s:%s" % (s["logic"], s["engine"], s.get("family")))
+            if s["rc"] == -9:
+                ctx.count("script-timeout")
+            try:
+                evs = T.read_trace(s["trace"], want=("t", "la"), max_la=cap)
+                if evs and getattr(evs[-1], "truncated", False):
+                    ctx.count("script-events-capped")
+            except T.ParseError as e:
+                ctx.tie_broken("trace-unreadable", "%s" % e, dict(script=s["text"]))
+                continue
+            for ev in evs:
+                if ev.kind == "la":
+                    state["n_la"] += 1
+                    lits = TC.la_event_lits(ev)
+                    if lits is None:
+                        if judge_reject(ctx, s, ev, None, isint, "malformed"):
+                            ctx.tie_broken("la-event-shape", ev.raw[:300], dict(script=s["text"]))
+                        continue
+                    queries.append(TC.encode_la("Q", isint, lits))
+                    meta.append((s, ev, lits, isint))
+                elif ev.kind == "t" and ev.la is not None:
                     # the clause handed to the SAT solver is the negation of the certified conjunction
                     a = sorted((T.show(at), pol) for at, pol, _ in ev.la.la)
                     b = sorted((T.show(T.split_literal(t)[0]), not T.split_literal(t)[1]) for t in ev.terms)
                     if a != b:
                         ctx.tie_broken("la-conflict-vs-clause", "certified conjunction and theory clause differ: %s / %s" % (ev.la.raw[:200], ev.raw[:200]),
                                        dict(script=s["text"]))
-                prev = None
+            s["trace"] = ""      # free memory
+
+    do_batch(TC.corpus_scripts("C26") + make_scripts(ctx, n))
+    extra_rounds = 0
+    while state["n_la"] < need and extra_rounds < 4:
+        # a loaded machine makes more scripts hit the time limit: top up with further scripts (same generator)
+        extra_rounds += 1
+        ctx.count("top-up-round")
+        do_batch(make_scripts(ctx, n // 2))
+    n_la = state["n_la"]
     try:
         answers = drv.batch(queries)
     except RuntimeError as e:
@@ -130,8 +139,7 @@ def run(ctx):
             if judge_reject(ctx, s, ev, lits, isint, "rejected" if ans == "0" else "driver:" + ans[:40]):
                 ctx.tie_broken("la-certificate", "extracted la_conflict_check rejects %s" % ev.raw[:300], dict(script=s["text"], event=ev.raw))
     ctx.extra["la_conflicts"] = n_la
-    ctx.extra["scripts"] = len(scripts)
-    ctx.note("%d LA conflicts from %d scripts (%d with at least one conflict)" % (
-        n_la, len(scripts), sum(1 for s in scripts if "(la " in s["trace"])))
-    if n_la < (3000 if ctx.quick else 30000):
+    ctx.extra["scripts"] = state["scripts"]
+    ctx.note("%d LA conflicts from %d scripts (%d with at least one conflict)" % (n_la, state["scripts"], state["with_conflict"]))
+    if n_la < need:
         ctx.tie_broken("too-few-conflicts", "only %d LA conflicts were produced by the generated scripts" % n_la)
